@@ -175,15 +175,34 @@ def strip_comments(text):
     return "".join(out)
 
 
-def hygiene():
-    """no Admitted/admit/Axiom/Parameter/... anywhere in the development; Variable/Hypothesis are
-    allowed only inside a Section"""
+def coq_closure(start_files):
+    """the .v files (relative to coq/) a set of files depends on through `From Dnp3V Require ...`"""
+    seen, todo = [], list(start_files)
+    while todo:
+        f = todo.pop()
+        if f in seen or not os.path.exists(os.path.join(COQ, f)):
+            continue
+        seen.append(f)
+        text = strip_comments(open(os.path.join(COQ, f)).read())
+        for m in re.finditer(r"From\s+Dnp3V\s+Require\s+(?:Import\s+|Export\s+)?([^.]+(?:\.[A-Za-z_][\w']*)*)\s*\.", text):
+            for mod in m.group(1).split():
+                todo.append(mod.replace(".", "/") + ".v")
+    return seen
+
+
+def hygiene(scope=None):
+    """no Admitted/admit/Axiom/Parameter/... in the development; Variable/Hypothesis are allowed
+    only inside a Section.  scope = list of .v files (relative to coq/): only these and everything
+    they depend on are scanned (the files a property's theorems are built from); None = all."""
     bad = []
+    only = None if scope is None else set(coq_closure(scope))
     for root, _, files in os.walk(COQ):
         for f in files:
             if not f.endswith(".v") or f.endswith("_wip.v") or "scratch" in root:
                 continue
             path = os.path.join(root, f)
+            if only is not None and os.path.relpath(path, COQ) not in only:
+                continue
             text = strip_comments(open(path).read())
             in_section = 0
             for ln, line in enumerate(text.splitlines(), 1):
